@@ -81,6 +81,10 @@ type ConfigFile struct {
 
 // RunSpec is one fully explicit child-process run.
 type RunSpec struct {
+	// Before: runs executed first in the SAME scratch world (working directory, TMPDIR, HOME, XDG
+	// directories — the durable state a process can leave behind); their outcome is ignored. Every run
+	// without Before starts in a fresh world.
+	Before []RunSpec `json:"before,omitempty"`
 	Program *spec.Program `json:"program,omitempty"` // nil: same as the case's program
 	Config  *ConfigFile   `json:"config_file,omitempty"`
 	Params  []string      `json:"params"`
@@ -257,6 +261,43 @@ func (e *Engine) Exec(prog *spec.Program, rs *RunSpec) Outcome {
 	}
 	bin := e.PlainBin
 	env := pipeline.MinimalEnv(rs.Env...)
+	// the simulated disk of this run: nothing outside it is writable state shared between runs
+	for _, d := range []string{"tmp", "home", "cache", "xdgconfig"} {
+		os.MkdirAll(filepath.Join(dir, "world", d), 0o755)
+	}
+	world := filepath.Join(dir, "world")
+	env = append(env, "TMPDIR="+filepath.Join(world, "tmp"), "HOME="+filepath.Join(world, "home"),
+		"XDG_CACHE_HOME="+filepath.Join(world, "cache"), "XDG_CONFIG_HOME="+filepath.Join(world, "xdgconfig"))
+	for bi, b := range rs.Before {
+		bp := ""
+		if b.Config != nil && b.Config.Mode == "file" {
+			bp = fmt.Sprintf("before%d.yaml", bi)
+			if err := os.WriteFile(filepath.Join(dir, bp), []byte(b.Config.Content), 0o644); err != nil {
+				return Outcome{Err: err}
+			}
+		}
+		bps := append([]string{}, b.Params...)
+		if bp != "" {
+			bps = append([]string{"config=" + bp}, bps...)
+		}
+		bprog := prog
+		if b.Program != nil {
+			bprog = b.Program
+		}
+		breq, err := bprog.RequestBytes(strings.Join(bps, ","))
+		if err != nil {
+			return Outcome{Err: err}
+		}
+		bbin := e.PlainBin
+		if bbin == "" {
+			bbin = e.SimBin
+		}
+		benv := append(append([]string{}, env...), b.Env...)
+		if r := pipeline.RunPlugin(bbin, breq, pipeline.RunOpts{Dir: dir, Env: benv}); r.Err != nil {
+			return Outcome{Err: fmt.Errorf("earlier run %d of the history: %v", bi, r.Err)}
+		}
+		atomic.AddInt64(&e.Runs, 1)
+	}
 	logPath := ""
 	if rs.Sim != nil {
 		bin = e.SimBin
